@@ -35,33 +35,57 @@ def frame_class(chain):
     return f["kind"] if f["rs"] else "no-readstates"
 
 
-def signature(kind, acct, signers, subj, chain):
-    sig = {"kind": kind, "account": acct, "frame": frame_class(chain)}
+def resolve(acct, chain, subj):
     if acct == "S":
-        sc = "-"
-        for s in signers:
-            if s["account"] == subj:
-                sc = "+".join(s["scopes"]) or "None"
-                break
+        return subj
+    if acct == "caller":
+        return chain[-2]["name"] if len(chain) > 1 else "Z"
+    if acct == "current":
+        return chain[-1]["name"]
+    if acct == "entry":
+        return "E"
+    return acct
+
+
+def signature(kind, acct, signers, subj, chain):
+    """Same function as signature() of the Go driver."""
+    sig = {"kind": kind, "account": acct, "frame": frame_class(chain)}
+    name = resolve(acct, chain, subj)
+    for s in signers:
+        if s["account"] != name:
+            continue
+        sc = "+".join(s["scopes"]) or "None"
         sig["scopes"] = sc
-    if '"Z"' in json.dumps(signers):
-        sig["special"] = "zero-hash-operand"
+        special = ""
+        if "CustomGroups" in sc and not s["groups"]:
+            special = "custom-groups-empty-list"
+        elif '"Z"' in json.dumps(s):
+            special = "zero-hash-operand"
+        if special:
+            return {"kind": kind, "frame": frame_class(chain), "special": special}
+        break
     return sig
 
 
 class Reporter:
+    """At most MAX_SIGS distinct signatures become violations (one replay each); the rest is counted."""
+
     def __init__(self, ctx):
         self.ctx = ctx
         self.sigs = {}
+        self.more = set()
 
     def add(self, sig, detail):
         k = json.dumps(sig, sort_keys=True)
-        self.sigs[k] = self.sigs.get(k, 0) + 1
-        if self.sigs[k] == 1 and len(self.sigs) > MAX_SIGS:
-            self.ctx.extra["further_violation_signatures"] = self.ctx.extra.get("further_violation_signatures", 0) + 1
-            return
-        if len([x for x in self.sigs if self.sigs[x]]) <= MAX_SIGS or k in list(self.sigs)[:MAX_SIGS]:
-            self.ctx.violation(sig, detail)
+        if k not in self.sigs:
+            if len(self.sigs) >= MAX_SIGS:
+                self.more.add(k)
+                self.ctx.extra["further_violation_signatures"] = len(self.more)
+                return
+            self.sigs[k] = 0
+            vlib.log("violation signature:", k)
+        self.sigs[k] += 1
+        self.ctx.violation(sig, detail)
 
 
 def judge_trace(ctx, rep, path, events, timeout):
@@ -126,14 +150,14 @@ def run(ctx):
             r = c["signers"][1]["rules"]
             strata.setdefault((len(r), r[0]["cond"]["t"], r[0]["action"]), []).append(c)
         for k in sorted(strata):
-            for c in rnd.sample(strata[k], min(len(strata[k]), 6)):
+            for c in rnd.sample(strata[k], min(len(strata[k]), 4)):
                 c["deep"] = True
         ctx.extra["deep_sampled_rule_configurations"] = sum(1 for c in b_rules["cases"] if c["deep"])
     ind = os.path.join(ctx.work, "in-c15")
     os.makedirs(ind)
     json.dump({"deep": deep, "batches": [b_std, b_rules], "corrupt": 0}, open(os.path.join(ind, "input.json"), "w"))
     # 3. real code
-    res = ctx.go_driver("c15wit", "TestDriver", env={"VERIF_IN": ind, "VERIF_RANDOM": 150 if q else 6000}, timeout=3000)
+    res = ctx.go_driver("c15wit", "TestDriver", env={"VERIF_IN": ind, "VERIF_RANDOM": 100 if q else 3000, "GOGC": 400}, timeout=3000)
     viol = res.pop("violations", None) or []
     ctx.absorb(res)
     rep = Reporter(ctx)
@@ -143,7 +167,7 @@ def run(ctx):
     trace = os.path.join(res["_out"], "trace.ndjson")
     events = vlib.read_ndjson(trace)
     ctx.extra["trace_events"] = len(events)
-    CH = 1200
+    CH = 6000 if q else 2500
     nfail = 0
     if len(events) <= CH + 1:
         nfail += judge_trace(ctx, rep, trace, events, 3000)
